@@ -27,6 +27,9 @@ def fromRows (fetch : Bytes → Option Table) : TableRef → Option (List Row ×
   | .join l jt r on => do
     let (L, lf) ← fromRows fetch l
     let (R, rf) ← fieldsOf fetch r
+    -- every table of a FROM clause is addressable under its own name or alias: two tables under one
+    -- name make qualified references ambiguous, and the clause has no meaning
+    if rf.any (fun g => lf.any (·.tableId == g.tableId)) then none else
     let fields := lf ++ rf
     let pairs := L.flatMap fun a => R.map fun b => (a, b)
     let truth ← pairs.mapM fun (a, b) => holds on fields (a ++ b)
